@@ -124,10 +124,11 @@ class VM:
         self.merge_returns = set() # names of functions whose 'ret' outcomes are merged (ite) instead of forked
         self.nmerged = 0
         self.trace = False
+        self._cur_machine = None
 
     # ------------------------------------------------------------------ solver
     def feasible(self, m, extra=()):
-        conds = [c for c in list(m.pc) + list(extra) + self.background]
+        conds = [c for c in list(m.pc) + list(extra) + self.background + list(getattr(self.alg, 'lemmas', ()))]
         # fast path: purely concrete
         conds2 = []
         for c in conds:
@@ -266,6 +267,13 @@ class VM:
         if t.startswith('{closure@'): return Closure(t, (), fn.name if fn is not None else None)
         m = re.match(r'^(.*?)::\{constant#\d+\}: usize = const (\d+)_usize$', t)
         if m: return int(m.group(2))
+        m = re.search(r'::promoted\[(\d+)\]$', t)
+        if m and fn is not None and self._cur_machine is not None:
+            pname = re.sub(r'::\{closure#\d+\}$', '', fn.name) + '::promoted[%s]' % m.group(1) if False else fn.name + '::promoted[%s]' % m.group(1)
+            if pname in self.mir.fns:
+                outs = list(self.exec_fn(self._cur_machine, self.mir.get(pname), [], keep_frame=True))
+                if len(outs) == 1 and outs[0][1] == 'ret': return outs[0][2]
+            raise Unmodelled('promoted constant ' + pname)
         # unit enum variant constants / unit structs: `std::option::Option::<X>::None`, `PhantomData::<..>`
         base = strip_generics(t)
         segs = [x.strip() for x in base.split('::') if x.strip()]
@@ -281,7 +289,9 @@ class VM:
     def operand(self, m, fid, o, fn=None):
         k = o[0]
         if k == 'copy' or k == 'move': return self.read_place(m, fid, o[1])
-        if k == 'const': return self.const(o[1], fn)
+        if k == 'const':
+            self._cur_machine = m
+            return self.const(o[1], fn)
         if k == 'fnitem': return FnItem(o[1])
         raise VMError('operand kind ' + k)
 
@@ -497,6 +507,10 @@ class VM:
             hits = lookup(xb, tb, meth, file)
             if len(hits) == 1: return mir.get(hits[0])
             if not hits:
+                hits = lookup(xb, '<derive>', meth, file)
+                if len(hits) == 1: return mir.get(hits[0])
+                hits = []
+            if not hits:
                 hits = lookup(None, tb, meth)      # trait default method
                 if len(hits) == 1: return mir.get(hits[0])
             return None
@@ -609,7 +623,7 @@ class VM:
         else: a0 = cv
         return self.exec_fn(m, fn, [a0] + list(args))
 
-    def exec_fn(self, m, fn, args):
+    def exec_fn(self, m, fn, args, keep_frame=False):
         if m.depth >= self.max_call_depth: raise BoundExceeded('call depth')
         fn.parse()
         self.fns_used.add(fn.name)
@@ -639,7 +653,9 @@ class VM:
                 if k == 'goto': bb, i = st.a, 0; continue
                 if k == 'return':
                     v = m.mem.get((fid, '_0'), UNIT)
-                    self._pop(m, fid); yield (m, 'ret', v); break
+                    if keep_frame: m.depth -= 1
+                    else: self._pop(m, fid)
+                    yield (m, 'ret', v); break
                 if k == 'drop':
                     if self.on_drop is not None:
                         try: v = self.read_place(m, fid, st.a)
